@@ -152,8 +152,17 @@ class RetrievalPrecision(Metric[torch.Tensor]):
         batch_preds = torch.cat([self.topk[i], input])
         batch_targets = torch.cat([self.target[i], target])
         preds_topk = get_topk(batch_preds, self.k)
-        self.topk[i] = preds_topk[0]
-        self.target[i] = batch_targets.gather(dim=-1, index=preds_topk[1])
+        topk = preds_topk[0]
+        retained = batch_targets.gather(dim=-1, index=preds_topk[1])
+        if 1 not in retained and 1 in batch_targets:
+            # every relevant item fell out of the top-k: also retain the best of them, so
+            # that compute() can tell "no relevant item retrieved" (0.0) from "no relevant
+            # item seen" (empty_target_action). It never enters the top-k of compute().
+            best = torch.where(batch_targets == 1, batch_preds, -torch.inf).argmax()
+            topk = torch.cat([topk, batch_preds[best : best + 1]])
+            retained = torch.cat([retained, batch_targets[best : best + 1]])
+        self.topk[i] = topk
+        self.target[i] = retained
 
     @torch.inference_mode()
     def compute(self: TRetrievalPrecision) -> torch.Tensor:
